@@ -235,6 +235,9 @@ func genInvocation(r *core.Rand, files []treeFile) cliInv {
 			}
 		}
 		v.Bundle = true
+		if r.Chance(1, 4) {
+			v.Type = ext
+		}
 		switch r.Intn(4) {
 		case 0:
 		case 1:
@@ -415,6 +418,13 @@ func c19Fixed() []c19Case {
 	cs = append(cs, c19Case{Name: "bundle-empty-middle-onto-input", Files: emptyMid, Inv: cliInv{Inputs: []string{"a.js", "empty.js", "c.js"}, Bundle: true, Output: "c.js"}})
 	cs = append(cs, c19Case{Name: "bundle-empty-first", Files: emptyMid, Inv: cliInv{Inputs: []string{"empty.js", "a.js", "c.js"}, Bundle: true}})
 	cs = append(cs, c19Case{Name: "bundle-empty-css", Files: emptyMid, Inv: cliInv{Inputs: []string{"f.css", "e.css", "f.css"}, Bundle: true, Output: "o.css"}})
+	// bundles whose type is given on the command line: the separator between scripts belongs to the type, not to how
+	// the type was found out (the first file ends in a function expression, the second starts with a parenthesis)
+	sep := []treeFile{{Path: "a.js", Data: "var f = function(){ return 1 }"}, {Path: "b.js", Data: "(function(){ g( 2 ) })()"}, {Path: "a.txt", Data: "var f = function(){ return 1 }"}, {Path: "b.txt", Data: "(function(){ g( 2 ) })()"}}
+	cs = append(cs, c19Case{Name: "bundle-typed-js", Files: sep, Inv: cliInv{Inputs: []string{"a.js", "b.js"}, Bundle: true, Type: "js", Output: "out.js"}})
+	cs = append(cs, c19Case{Name: "bundle-typed-js-other-ext", Files: sep, Inv: cliInv{Inputs: []string{"a.txt", "b.txt"}, Bundle: true, Type: "js", Output: "out.txt"}})
+	cs = append(cs, c19Case{Name: "bundle-typed-js-stdout", Files: sep, Inv: cliInv{Inputs: []string{"a.js", "b.js"}, Bundle: true, Type: "js"}})
+	cs = append(cs, c19Case{Name: "bundle-untyped-js", Files: sep, Inv: cliInv{Inputs: []string{"a.js", "b.js"}, Bundle: true, Output: "out.js"}})
 	// destinations that exist already and are longer than what is written now (a second run after the sources shrank)
 	long := strings.Repeat("/* stale content of an earlier run */\n", 40)
 	stale := []treeFile{{Path: "src/app.js", Data: js}, {Path: "src/app.css", Data: css}, {Path: "src/note.txt", Data: "n"}, {Path: "out/app.js", Data: long}, {Path: "out/app.css", Data: long}, {Path: "out/note.txt", Data: long}, {Path: "bundle.js", Data: long}}
